@@ -22,6 +22,18 @@ def do_replay(prop, path):
     elif rp.get("kind") == "compare":
         from vf.e1.compare_jobs import replay_compare
         viol, txt = replay_compare(rp)
+    elif rp.get("kind") == "multibit":
+        from vf.e1.edif_jobs import replay_multibit
+        viol, txt = replay_multibit(rp)
+    elif rp.get("kind") == "merge_wires":
+        from vf.e1.eblif_jobs import replay_merge
+        viol, txt = replay_merge(rp)
+    elif rp.get("kind") == "libraryref":
+        from vf.e1.edif_jobs import replay_libraryref
+        viol, txt = replay_libraryref(rp)
+    elif rp.get("kind") == "cable_wire_name":
+        from vf.e1.edif_jobs import replay_cable_wire_name
+        viol, txt = replay_cable_wire_name(rp)
     elif rp.get("kind") == "policy":
         from vf.e1.parser_jobs import replay_policy
         viol, txt = replay_policy(rp)
